@@ -28,6 +28,20 @@ CHECKS["C14"] = dict(
     technique="contract-based deductive verification (own AST->SMT VC generator, z3/cvc5)",
     design_ref="5/C14")
 
+CHECKS["C41"] = dict(
+    level="proof",
+    text="Every obligation from the real source of Engine.fetch_table (4 loops with inductive "
+         "invariants, nested for/else/break/try; symbolic number of rows, query columns and values) "
+         "is discharged: result rows are exactly the matching rows in row-id order, columns are "
+         "exactly those selected by the formulas/private flags, values aligned. A bounded twin "
+         "runs the real engine against a linear-scan specification.",
+    note="environment model: RowIDs iterates increasing ids, pure column reads, set()/in semantics "
+         "incl. TypeError on unhashables, 'unhashable never equals hashable' (DESIGN.md 5/C41); "
+         "pysym + z3 trusted.",
+    technique="contract-based deductive verification (own AST->SMT VC generator, z3/cvc5) + "
+              "bounded run-time contract on the real engine",
+    design_ref="5/C41")
+
 NOT_APPLICABLE = {
   "C30": "quantifies over interpreter configurations (PYTHONHASHSEED) and relates two separate "
          "processes; no pre/postcondition on a call inside one process can mention the hash seed "
